@@ -168,8 +168,11 @@ CHECKS = {
               "hub.Hub. Oracle: reference model map ski -> (fields of the first valid add, ordered usable address set); the manager's "
               "entries equal the model after every event and the last VisibleRemoteServicesUpdated list equals the final set. "
               "non-trivial = >= 3 state changes and at least one remove; distinct = hash of the event sequence"),
-        runs=[dict(engine="mdnssim", test="TestC17", quick=dict(checks=20000, shards=4, timeout=600),
-                   thorough=dict(checks=600000, shards=16, timeout=3000))],
+        runs=[dict(engine="mdnssim", test="TestC17", quick=dict(checks=12000, shards=4, timeout=600),
+                   thorough=dict(checks=600000, shards=16, timeout=3000)),
+              # hub level: real hubs consume the reports (patching fixed IPv4 addresses, dialling); the managers' views must equal what the fabric reported
+              dict(engine="hubnet", test="TestC17Hub", shrinktime="1s", quick=dict(checks=4, shards=4, timeout=1200),
+                   thorough=dict(checks=40, shards=4, timeout=6000), env=dict(VERIF_BATCH="8"))],
         assumptions=["removes with invalid TXT for a known service are not generated (neither provider produces them; the statement leaves them open)"],
     ),
     "C19": dict(
